@@ -113,7 +113,7 @@ func seqJobList(prop, tier string) []*SeqJob {
 	case "C11":
 		return append(c11Jobs(tier), tagChainSweep("C11", "size-sweep-tag-chain-on-a-test-scope", tier, true))
 	case "C20":
-		return c20Jobs(tier)
+		return append(c20Jobs(tier), bucketSetsPerRootSweep(tier))
 	case "C19":
 		return c19Jobs(tier)
 	case "C18":
